@@ -11,6 +11,7 @@ import (
 	"regexp"
 	"runtime"
 	"runtime/debug"
+	"runtime/metrics"
 	"strings"
 	"sync"
 	"sync/atomic"
@@ -152,10 +153,51 @@ func panicSite(stack string) string {
 	return "unknown"
 }
 
+// pcInfo caches what a program counter resolves to.
+type pcInfo struct {
+	fn     string
+	repo   bool
+	helper bool
+}
+
+var pcCache sync.Map
+
+// tryFast is core.Try without the formatted stack: the panic site is resolved
+// from the program counters of the panicking stack (the decoders under test
+// panic hundreds of thousands of times on the enumerated inputs).
+func tryFast(f func()) (panicked bool, val interface{}, site string) {
+	defer func() {
+		if e := recover(); e != nil {
+			panicked, val = true, e
+			var pcs [64]uintptr
+			n := runtime.Callers(2, pcs[:])
+			site = "unknown"
+			for _, pc := range pcs[:n] {
+				var inf pcInfo
+				if c, ok := pcCache.Load(pc); ok {
+					inf = c.(pcInfo)
+				} else {
+					fr, _ := runtime.CallersFrames([]uintptr{pc}).Next()
+					inf.fn = fr.Function
+					inf.repo = strings.Contains(fr.Function, "github.com/dappledger/AnnChain/")
+					inf.helper = strings.Contains(fr.Function, "go-common.Panic") || strings.Contains(fr.Function, "go-common.panicLog")
+					pcCache.Store(pc, inf)
+				}
+				if inf.repo && !inf.helper {
+					site = strings.TrimPrefix(inf.fn, "github.com/dappledger/AnnChain/")
+					break
+				}
+			}
+		}
+	}()
+	f()
+	return
+}
+
 func guarded(f func(o *outcome)) outcome {
 	var o outcome
-	if p, v, st := core.Try(func() { f(&o) }); p {
-		o.Panicked, o.PanicVal, o.Site = true, core.FirstLine(v), panicSite(st)
+	if p, v, site := tryFast(func() { f(&o) }); p {
+		o.Panicked, o.PanicVal, o.Site = true, core.FirstLine(v), site
 		o.Err = fmt.Errorf("panic: %s", panicClass(v))
 	}
 	return o
@@ -819,48 +861,51 @@ func totalAlloc() uint64 {
 	return ms.TotalAlloc
 }
 
-func memBound(lmt int) uint64 { return 64*uint64(lmt) + (1 << 20) }
+// allocCounter reads the cumulative heap allocation counter without stopping
+// the world (runtime/metrics "/gc/heap/allocs:bytes" is the quantity that
+// MemStats.TotalAlloc reports); a case over the bound is re-measured with
+// runtime.MemStats.TotalAlloc before it is reported.
+var allocSample = []metrics.Sample{{Name: "/gc/heap/allocs:bytes"}}
+
+func allocCounter() uint64 {
+	metrics.Read(allocSample)
+	if allocSample[0].Value.Kind() != metrics.KindUint64 {
+		return totalAlloc()
+	}
+	return allocSample[0].Value.Uint64()
+}
+
+// memBound: 64·limit + 1 MiB; limit 0 is go-wire's "no limit", for which the
+// allocation clause makes no demand.
+func memBound(lmt int) uint64 {
+	if lmt == 0 {
+		return 1 << 62
+	}
+	return 64*uint64(lmt) + (1 << 20)
+}
 
 // measure runs the cases one after the other on this goroutine (nothing else
-// of the checker runs concurrently) and checks TotalAlloc of each decode
-// against 64·limit + 1 MiB.  Cases are first measured in batches: a batch
-// whose total stays under the smallest individual bound proves every member.
+// of the checker runs concurrently) and checks the allocation of each decode
+// against 64·limit + 1 MiB.
 func (c *checker) measure(cases []memCase) {
-	const batch = 64
-	for i := 0; i < len(cases); i += batch {
-		j := i + batch
-		if j > len(cases) {
-			j = len(cases)
-		}
-		minBound := uint64(1) << 62
-		for _, mc := range cases[i:j] {
-			if b := memBound(mc.lmt); b < minBound {
-				minBound = b
-			}
-		}
-		before := totalAlloc()
-		for _, mc := range cases[i:j] {
-			if atomic.LoadInt64(&c.memViolations) >= 3 && strings.HasPrefix(mc.mut, "bomb-2p31") {
-				continue
-			}
-			cls := c.offer(mc.f, mc.entry, mc.in, mc.lmt, mc.mut)
-			c.classes.Add("mem/" + mc.f.Name + "/" + mc.entry + "/" + cls)
-		}
-		if totalAlloc()-before <= minBound {
+	for _, mc := range cases {
+		if atomic.LoadInt64(&c.memViolations) >= 3 && strings.HasPrefix(mc.mut, "bomb-2p31") {
+			c.notes.Add("skipped-2p31-bombs-after-3-memory-violations")
 			continue
 		}
-		for _, mc := range cases[i:j] {
-			if atomic.LoadInt64(&c.memViolations) >= 3 && strings.HasPrefix(mc.mut, "bomb-2p31") {
-				c.notes.Add("skipped-2p31-bombs-after-3-memory-violations")
-				continue
-			}
+		before := allocCounter()
+		cls := c.offer(mc.f, mc.entry, mc.in, mc.lmt, mc.mut)
+		delta := allocCounter() - before
+		c.classes.Add("mem/" + mc.f.Name + "/" + mc.entry + "/" + cls)
+		if delta > memBound(mc.lmt) {
 			c.measureOne(mc)
 		}
 	}
 }
 
 func (c *checker) measureOne(mc memCase) bool {
-	// two attempts: a background allocation (GC bookkeeping) must not count
+	// two attempts with runtime.MemStats.TotalAlloc: a background allocation
+	// (GC bookkeeping) must not count
 	var delta uint64
 	for attempt := 0; attempt < 2; attempt++ {
 		before := totalAlloc()
@@ -915,7 +960,13 @@ func (c *checker) bombCases(f *family, g *gridValue, enc []byte) []memCase {
 				// shifted remainder, i.e. on arbitrary length prefixes without
 				// a limit.)
 				out = append(out, memCase{f, "ReadBinary", in, 0, mut})
-				out = append(out, memCase{f, "ReadBinaryBytes", in, 0, mut})
+				if f.ByValue {
+					out = append(out, memCase{f, "ReadBinaryBytes", in, 0, mut})
+				} else {
+					// ReadBinaryBytes(d, &T{}) reads the struct itself, without
+					// the pointer byte that ReadBinary(&T{}, …) expects
+					out = append(out, memCase{f, "ReadBinaryBytes", in[1:], 0, mut})
+				}
 			}
 		}
 	}
